@@ -340,17 +340,19 @@ def _model_classes(proj):
 
 def alias_rules(check):
     pid, proj = check.pid, check.proj
-    if pid not in ("C01", "C15", "C16", "C17", "C20"):
+    if pid not in ("C01", "C15", "C16", "C17", "C19", "C20"):
         return
     alias_example()
     an = alias_analysis(proj)
-    if pid == "C17":
+    if pid in ("C17", "C19"):
+        # (C19: the conservative data the discretisation converts at the start of rhs() are the very list handed to the source
+        # functions at its end -- a conversion that works in place feeds them primitive values)
         n = bad = 0
         seen = set()
         for ci in _model_classes(proj):
             fs = [ci.methods[nm] for nm in ("cons2prim", "prim2cons") if nm in ci.methods]
             reg = ci.registries.get("_vardict")
-            if reg:
+            if reg and pid == "C17":
                 fs += list(reg["entries"].values())
             for f in fs:
                 if f.qualname in seen:
